@@ -79,19 +79,25 @@ def build_generated_db(path: Path, seed: int, nflights: int):
             'INSERT INTO flights (id, carrier, flight_number, origin, destination, day_of_week_mask, departure_time, '
             'arrival_time, arrival_day_offset, service_type, aircraft_type, engine_type, distance, seat_capacity, '
             'effective_from, effective_to, number_of_flights, od_pair) VALUES (?,?,?,?,?,?,?,?,?,?,?,?,?,?,?,?,?,?)',
-            (fid, rng.choice(['BA', 'AA', 'QF']), str(rng.randint(1, 9999)), ids[o], ids[d], 127, 600, 700, 0,
-             rng.choice(['J', 'J', 'J', 'F', 'C', 'S']), rng.choice(['738', '320', '77W', '359', 'E90']), '',
+            (fid, rng.choice(['BA', 'AA', 'QF', 'NZ', '9W']), str(rng.randint(1, 9999)), ids[o], ids[d], 127, 600, 700, 0,
+             rng.choice(['J', 'J', 'J', 'F', 'C', 'S']), rng.choice(['738', '320', '77W', '359', 'E90']),
+             rng.choice(['', '', 'CFM56', 'GE90', None]),
              dist, seats, '2019-03-01', '2019-04-15', 0, min(o, d) + max(o, d)))
-        n = rng.choice([1, 1, 2, 3, 4, 6])
+        n = rng.choice([1, 1, 2, 3, 4, 6, 0])          # some flights have no instance at all
+        times = []
         for _ in range(n):
             if rng.random() < 0.3:
                 t = rng.choice(shared_times)
             else:
                 dd = day0 + rng.randint(0, 44)
-                t = dd * 86400 + rng.choice([0, 86399, 1, rng.randint(0, 86399), rng.randint(0, 86399)])
+                t = dd * 86400 + rng.choice([0, 0, 86399, 1, rng.randint(0, 86399), rng.randint(0, 86399)])
+            times.append((t, t + rng.randint(1800, 50000)))
+        if times and rng.random() < 0.1:
+            times.append(times[0])                      # the same instance stored twice (distinct ids)
+        for t, ta in times:
             cur.execute('INSERT INTO schedules (departure_timestamp, arrival_timestamp, day, flight_id) VALUES (?,?,?,?)',
-                        (t, t + rng.randint(1800, 50000), t // 86400, fid))
-        cur.execute('UPDATE flights SET number_of_flights = ? WHERE id = ?', (n, fid))
+                        (t, ta, t // 86400, fid))
+        cur.execute('UPDATE flights SET number_of_flights = ? WHERE id = ?', (len(times), fid))
     db.commit()
     db.index()
     db.commit()
@@ -114,7 +120,8 @@ def export_rows(path: Path):
         o, d = airports[f['origin']], airports[f['destination']]
         rows.append({
             'sid': s['id'], 'dep': s['departure_timestamp'], 'arr': s['arrival_timestamp'], 'day': s['day'],
-            'fid': f['id'], 'dist': f['distance'], 'seats': f['seat_capacity'], 'service': f['service_type'],
+            'fid': f['id'], 'carrier': f['carrier'], 'fltno': f['flight_number'], 'engine': f['engine_type'],
+            'dist': f['distance'], 'seats': f['seat_capacity'], 'service': f['service_type'],
             'actype': f['aircraft_type'],
             'o': o['iata_code'], 'octry': o['country'], 'ocont': countries.get(o['country'], {}).get('continent', ''),
             'olat': o['latitude'], 'olon': o['longitude'],
@@ -163,7 +170,7 @@ class World:
         self.coords = [(a['latitude'], a['longitude']) for a in airports.values()]
         self.lats = sorted({c[0] for c in self.coords})
         self.lons = sorted({c[1] for c in self.coords})
-        self.days = sorted({r['dep'] // 86400 for r in rows})
+        self.days = sorted({r['dep'] // 86400 for r in rows}) or [17956]
 
 
 def _safe_edge(rng, vals, lo, hi):
@@ -174,18 +181,8 @@ def _safe_edge(rng, vals, lo, hi):
     return None
 
 
-def gen_box(rng, w: World):
-    m = rng.random()
-    if m < 0.6:           # around a real airport
-        lat, lon = rng.choice(w.coords)
-        h = rng.choice([0.01, 0.5, 3.0, 15.0, 40.0])
-        box = (lat - h, lat + h, lon - h, lon + h)
-    elif m < 0.9:
-        a, b = sorted([rng.uniform(-90, 90), rng.uniform(-90, 90)])
-        c, d = sorted([rng.uniform(-180, 180), rng.uniform(-180, 180)])
-        box = (a, b, c, d)
-    else:                 # inverted (crossing the antimeridian the naive way): selects nothing
-        box = (10.0, 60.0, 170.0, -170.0)
+def _mk_box(rng, w: World, box):
+    """Round the edges to x.xxx5 and keep them BOX_MARGIN away from every airport coordinate (None if impossible)."""
     out = []
     for v, vals, lo, hi in ((box[0], w.lats, -95, 95), (box[1], w.lats, -95, 95), (box[2], w.lons, -185, 185),
                             (box[3], w.lons, -185, 185)):
@@ -196,6 +193,21 @@ def gen_box(rng, w: World):
                 return None
         out.append(x)
     return out           # [min_lat, max_lat, min_lon, max_lon]
+
+
+def gen_box(rng, w: World):
+    m = rng.random()
+    if m < 0.6 and w.coords:           # around a real airport
+        lat, lon = rng.choice(w.coords)
+        h = rng.choice([0.01, 0.5, 3.0, 15.0, 40.0])
+        box = (lat - h, lat + h, lon - h, lon + h)
+    elif m < 0.9:
+        a, b = sorted([rng.uniform(-90, 90), rng.uniform(-90, 90)])
+        c, d = sorted([rng.uniform(-180, 180), rng.uniform(-180, 180)])
+        box = (a, b, c, d)
+    else:                 # inverted (crossing the antimeridian the naive way): selects nothing
+        box = (10.0, 60.0, 170.0, -170.0)
+    return _mk_box(rng, w, box)
 
 
 def _dist_bound(rng, w: World):
@@ -233,6 +245,11 @@ def gen_spatial(rng, w: World, flt: dict):
         k = rng.choice(kinds)
         flt[k] = val(k)
         return 'combined'
+    if m < 0.56:          # the same kind of condition on both ends (two boxes, two airport lists, ...)
+        k = rng.choice(['bounding_box', 'bounding_box', 'airport', 'country', 'continent'])
+        flt['origin_' + k] = val(k)
+        flt['destination_' + k] = val(k)
+        return 'ends:both-' + k
     if m < 0.80:
         mode = rng.choice(['o', 'd', 'od', 'od'])
         if 'o' in mode:
@@ -342,6 +359,137 @@ def sample_cases(w: World):
     return out
 
 
+def _case(w: World, kind, flt=None, tag='fixed', start=None, end=None, nth=None, sample=None, limit=None, offset=None,
+          plan=('run',)):
+    if kind == 'frequent' and limit is None:
+        limit = 20
+    return {'db': w.name, 'kind': kind, 'filter': flt, 'tag': tag, 'start': start, 'end': end, 'every_nth': nth,
+            'sample': sample, 'limit': limit, 'offset': offset, 'plan': list(plan)}
+
+
+def _date_of(daynum):
+    d = dt.date(1970, 1, 1) + dt.timedelta(days=daynum)
+    return [d.year, d.month, d.day]
+
+
+def value_cases(w: World):
+    """A query object is a value: no filter / Filter() / a filter holding only empty lists, for every query class,
+    executed 1..4 times with to_sql() called in between, alone and together with date / every-n-th / sampling
+    conditions (whose accumulation would show)."""
+    out = []
+    filters = [(None, 'no-filter'), ({}, 'empty-filter'), ({'service_type': []}, 'empty-filter'),
+               ({'service_type': [], 'aircraft_type': []}, 'empty-filter')]
+    plans = [['run'], ['run', 'run'], ['sql', 'run', 'sql', 'run'], ['run', 'sql', 'sql', 'run', 'run'],
+             ['run', 'run', 'run', 'run']]
+    mid = w.days[len(w.days) // 2]
+    j = 0
+    for flt, tag in filters:
+        for kind in ('query', 'count', 'frequent'):
+            for plan in plans:
+                extra = [{}, {'start': _date_of(w.days[0])}, {'end': _date_of(mid)},
+                         {'start': _date_of(w.days[0]), 'end': _date_of(w.days[-1])}][j % 4]
+                nth = 2 if (kind == 'query' and j % 3 == 0) else None
+                out.append(_case(w, kind, None if flt is None else dict(flt), tag, nth=nth, plan=plan, **extra))
+                j += 1
+        out.append(_case(w, 'query', None if flt is None else dict(flt), 'sampled', sample=0.5, plan=['run', 'run', 'run']))
+        out.append(_case(w, 'query', None if flt is None else dict(flt), 'sampled', sample=0.5,
+                         start=_date_of(w.days[0]), plan=['sql', 'run', 'sql', 'run']))
+    return out
+
+
+def midnight_cases(w: World):
+    """Date bounds against departures at exactly 00:00:00 and 23:59:59 UTC: end_date = D keeps 23:59:59 of D and
+    excludes 00:00:00 of D+1; start_date = D keeps 00:00:00 of D."""
+    out = []
+    at0 = [r for r in w.rows if r['dep'] % 86400 == 0][:6]
+    at1 = [r for r in w.rows if r['dep'] % 86400 == 86399][:4]
+    kinds = ['query', 'count', 'frequent']
+    j = 0
+    for r in at0:
+        day = r['dep'] // 86400
+        for start, end in ((None, day - 1), (None, day), (day, None), (day + 1, None), (day, day), (day - 1, day - 1)):
+            out.append(_case(w, kinds[j % 3], None, 'midnight', start=_date_of(start) if start is not None else None,
+                             end=_date_of(end) if end is not None else None, plan=['run']))
+            j += 1
+    for r in at1:
+        day = r['dep'] // 86400
+        for start, end in ((None, day), (day + 1, None), (day, day)):
+            out.append(_case(w, kinds[j % 3], None, 'midnight', start=_date_of(start) if start is not None else None,
+                             end=_date_of(end) if end is not None else None, plan=['run']))
+            j += 1
+    return out
+
+
+def both_ends_box_cases(rng, w: World):
+    """origin_bounding_box AND destination_bounding_box at once (a legal mix), built around stored routes so that
+    the answer is non-empty and much smaller than 'everything leaving the origin box'."""
+    out = []
+    routes = []
+    seen = set()
+    for r in w.rows:
+        if (r['o'], r['d']) not in seen:
+            seen.add((r['o'], r['d']))
+            routes.append(r)
+    for r in rng.sample(routes, min(6, len(routes))):
+        h1, h2 = rng.choice([0.5, 4.0, 12.0]), rng.choice([0.5, 4.0, 12.0])
+        b1 = _mk_box(rng, w, (r['olat'] - h1, r['olat'] + h1, r['olon'] - h1, r['olon'] + h1))
+        b2 = _mk_box(rng, w, (r['dlat'] - h2, r['dlat'] + h2, r['dlon'] - h2, r['dlon'] + h2))
+        if b1 is None or b2 is None:
+            continue
+        for kind in ('query', 'count', 'frequent'):
+            out.append(_case(w, kind, {'origin_bounding_box': b1, 'destination_bounding_box': b2}, 'ends:both-bounding_box',
+                             plan=['run', 'run'] if kind == 'query' else ['run']))
+    return out
+
+
+def empty_db_cases(w: World):
+    out = []
+    box = [10.0005, 60.0005, -20.0005, 40.0005]
+    for kind in ('query', 'count', 'frequent'):
+        for flt in (None, {}, {'min_distance': 100.5}, {'country': ['US']}, {'origin_bounding_box': box,
+                                                                             'destination_airport': 'LHR'}):
+            out.append(_case(w, kind, flt, 'empty-db', plan=['run', 'run']))
+        out.append(_case(w, kind, None, 'empty-db', start=[2019, 1, 1], end=[2019, 12, 31]))
+    out.append(_case(w, 'query', None, 'empty-db', nth=2))
+    out.append(_case(w, 'query', None, 'empty-db', nth=3, start=[2019, 3, 1]))
+    out.append(_case(w, 'query', None, 'empty-db', limit=5, offset=2))
+    out.append(_case(w, 'query', None, 'empty-db', sample=0.5, plan=['run', 'run']))
+    out.append(_case(w, 'query', {'airport': 'LHR', 'origin_country': 'US'}, 'illegal'))
+    return out
+
+
+def interleaved(chk: Check, w: World, db, cases, impl, by_sid):
+    """Two result generators of one Database object consumed alternately (with a count query in between): each must
+    still deliver its own answer."""
+    from itertools import zip_longest
+    from AEIC.missions.query import CountQuery
+    cand = [c for c, (st, _n) in zip(cases, impl)
+            if c['kind'] == 'query' and c['sample'] is None and st and st[-1][0] == 'rows' and len(st[-1][1]) >= 2]
+    pairs = list(zip(cand[0::2], cand[1::2]))[:chk.n(12, 60)]
+    for c1, c2 in pairs:
+        g1, g2 = db(make_query(c1)), db(make_query(c2))
+        r1, r2 = [], []
+        for k, (a, b) in enumerate(zip_longest(g1, g2)):
+            if a is not None:
+                r1.append(a.id)
+            if b is not None:
+                r2.append(b.id)
+            if k == 1:
+                n = db(CountQuery())
+                if n != len(w.rows):
+                    chk.fail(f'count of all instances taken while two result sets are open: {n}, stored {len(w.rows)}',
+                             {'case': c1, 'interleaved_with': c2}, None)
+                    return
+        chk.count('interleaved-pairs')
+        for c, got in ((c1, r1), (c2, r2)):
+            orc = oracle(c, w)
+            why = check_sequence(got, orc['matches'], *orc['window'], by_sid)
+            if why:
+                chk.fail(f'query consumed alternately with another one on the same Database: {why}',
+                         {'case': c, 'interleaved_with': c2 if c is c1 else c1}, None)
+                return
+
+
 # ---------------------------------------------------------------------------------------------
 # independent oracle
 # ---------------------------------------------------------------------------------------------
@@ -427,7 +575,7 @@ def oracle(case, w: World):
         rows = [r for r in rows if utc_date(r['dep']) <= d1]
     n = case['every_nth']
     if k == 'query' and n is not None and n > 1:
-        base = (dt.date(*case['start']) - dt.date(1970, 1, 1)).days if case['start'] else min(r['day'] for r in w.rows)
+        base = (dt.date(*case['start']) - dt.date(1970, 1, 1)).days if case['start'] else min((r['day'] for r in w.rows), default=0)
         rows = [r for r in rows if (r['day'] - base) % n == 0]
     rows = sorted(rows, key=lambda r: (r['dep'], r['sid']))
     lo, hi = 0, len(rows)
@@ -524,7 +672,7 @@ def run_impl(db, case):
     try:
         q = make_query(case)
     except Exception as e:  # noqa: BLE001
-        return [('error', 'construct:' + classify_error(e))]
+        return [('error', 'construct:' + classify_error(e))], None
     out = []
     for step in case['plan']:
         try:
@@ -538,14 +686,17 @@ def run_impl(db, case):
                     out.append(('rows', [r.id for r in res],
                                 [(r.flight_id, r.origin, r.destination, r.origin_country, r.destination_country,
                                   r.distance, r.seat_capacity, r.service_type, r.aircraft_type,
-                                  int(r.departure.timestamp()), int(r.arrival.timestamp())) for r in res]))
+                                  int(r.departure.timestamp()), int(r.arrival.timestamp()),
+                                  r.carrier, r.flight_number, r.engine_type,
+                                  type(r).__name__, type(r.departure).__name__) for r in res]))
                 elif case['kind'] == 'count':
                     out.append(('count', int(res)))
                 else:
                     out.append(('routes', [(r.airport1, r.airport2, r.number_of_flights) for r in res]))
         except Exception as e:  # noqa: BLE001
             out.append(('error', classify_error(e)))
-    return out
+    conds = getattr(q, '_conditions', None)
+    return out, (len(conds) if isinstance(conds, list) else None)
 
 
 def probe_flags():
@@ -722,7 +873,8 @@ def judge(chk: Check, case, steps, w: World, by_sid) -> bool:
                 for i, rec in zip(s[1], s[2]):
                     r = by_sid[i]
                     if rec != (r['fid'], r['o'], r['d'], r['octry'], r['dctry'], r['dist'], r['seats'], r['service'],
-                               r['actype'], r['dep'], r['arr']):
+                               r['actype'], r['dep'], r['arr'], r['carrier'], r['fltno'], r['engine'],
+                               'QueryResult', 'Timestamp'):
                         why = f'instance {i} is reported with other data than stored: {rec}'
                         break
             if why:
@@ -767,12 +919,21 @@ def check_world(chk: Check, w: World, cases, flags):
     by_sid = {r['sid']: r for r in w.rows}
     with Database(str(w.path)) as db:
         impl = [run_impl(db, c) for c in cases]
+        interleaved(chk, w, db, cases, impl, by_sid)
     (chk.gen / f'C14_Db_{w.name}.v').write_text(HEADER0 + coq_db(w.rows))
     if chk.coq_compile_gen(f'C14_Db_{w.name}', None, obligation=f'gen:database-{w.name}') is None:
         return
     header = HEADER0 + f'From Gen Require Import C14_Db_{w.name}.\n'
     model = chk.coq_eval(header, [coq_expr(c, flags) for c in cases], shard=25, label=f'cases_{w.name}')
-    for c, steps, m in zip(cases, impl, model):
+    rs, eo = ('true' if flags[0] else 'false'), ('true' if flags[1] else 'false')
+    nconds = chk.coq_eval(HEADER0, [f'run_ncond {rs} {eo} {coq_query(c)} {len(c["plan"])}%nat' for c in cases],
+                          shard=400, label=f'nconds_{w.name}')
+    for c, (steps, ncond), m, mn in zip(cases, impl, model, nconds):
+        if ncond is not None and isinstance(mn, tuple) and mn[0] == 'Ok' and steps and steps[-1][0] != 'error' \
+                and mn[1] != ncond:
+            chk.broken('correspondence:C14_Model.build_times',
+                       f'the query object holds {ncond} accumulated conditions after {len(c["plan"])} builds, the model '
+                       f'{mn[1]}', {'case': c})
         orc = oracle(c, w)
         chk.case({k: v for k, v in c.items() if k != 'tag'}, nontrivial(c, orc))
         chk.count('db:' + w.name)
@@ -819,8 +980,14 @@ def setup(chk: Check, db_seed: int, db_n: int):
     build_generated_db(gen_path, db_seed, db_n)
     shipped = chk.tmp / 'oag-2019-test-subset.sqlite'
     shutil.copy(REPO / 'tests/data/missions/oag-2019-test-subset.sqlite', shipped)
+    from AEIC.missions.writable_database import WritableDatabase
+    empty = chk.tmp / 'empty.sqlite'
+    e = WritableDatabase(str(empty))
+    e.index()
+    e.commit()
+    e.close()
     worlds = {}
-    for name, path in (('generated', gen_path), ('shipped', shipped)):
+    for name, path in (('generated', gen_path), ('shipped', shipped), ('empty', empty)):
         rows, orphans, airports = export_rows(path)
         w = World(name, path, rows, airports)
         preconditions(chk, w, orphans)
@@ -835,7 +1002,10 @@ def run(chk: Check):
                 'illegal mixes, empty lists, Filter() and filter=None, start/end dates on and around the stored days, '
                 'every-n-th day with either base, limit/offset incl. offsets past the end, invalid parameters), each '
                 'executed by a plan of 1-4 to_sql builds / executions, on a generated database (ties and midnight-UTC '
-                'departures) and the shipped test database; non-trivial = a non-empty filter with a non-empty answer, '
+                'departures, flights without instances, instances stored twice), the shipped test database and an '
+                'empty database; fixed streams: no filter / Filter() / only-empty-lists filters for every query class '
+                'run 1-4 times with to_sql in between (also sampled), date bounds against departures at 00:00:00 and '
+                '23:59:59 UTC, boxes on both ends at once, pairs of queries consumed alternately on one Database; non-trivial = a non-empty filter with a non-empty answer, '
                 'or a plan with more than one build, or an illegal mix, or an empty filter')
     chk.trusted += ['translator/c14_extract.py', 'harness/c14.py (row export, comparison modulo ties)',
                     'SQLite as evaluator of the generated SQL (incl. R-tree), sqlite3 module: exercised, not modelled']
@@ -862,10 +1032,20 @@ def run(chk: Check):
     corpus = load_corpus(chk)
     for name, n in (('generated', chk.n(330, 3000)), ('shipped', chk.n(130, 1200))):
         w = worlds[name]
-        cases = [c for c in corpus if c['db'] == name] + sample_cases(w) + [gen_case(chk.rng, w) for _ in range(n)]
+        cases = ([c for c in corpus if c['db'] == name] + sample_cases(w) + value_cases(w) + midnight_cases(w)
+                 + both_ends_box_cases(chk.rng, w) + [gen_case(chk.rng, w) for _ in range(n)])
         for c in cases:
             c['db_seed'], c['db_n'] = db_seed, db_n
         check_world(chk, w, cases, flags)
+    _run_empty_world(chk, worlds, flags, db_seed, db_n)
+
+
+def _run_empty_world(chk: Check, worlds, flags, db_seed, db_n):
+    w = worlds['empty']
+    cases = empty_db_cases(w)
+    for c in cases:
+        c['db_seed'], c['db_n'] = db_seed, db_n
+    check_world(chk, w, cases, flags)
 
 
 def replay(chk: Check, rp):
